@@ -549,6 +549,19 @@ pub fn c04(rec: &mut Rec, rng: &mut Rng, thorough: bool) {
                 rec.case("payload-limit");
                 rec.nontrivial();
                 let mut d = ConnDriver::new(rec, l);
+                // the limit is configuration: it also holds after an earlier request on the same connection was rejected
+                if variant >= 1 {
+                    let bad: &[u8] = match (variant + n as usize) % 3 {
+                        0 => b"BOGUS / HTTP/1.1\r\n\r\n",
+                        1 => b"GET /x HTTP/1.1\r\nContent-Length: abc\r\n\r\n",
+                        _ => b"PUT /big HTTP/1.1\r\nContent-Length: 4294967295\r\n\r\n",
+                    };
+                    if !(l as u64 >= 4294967295 && (variant + n as usize) % 3 == 2) {
+                        d.recv(rec, bad, 0);
+                        d.popall(rec);
+                        drain_writes(&mut d, rec);
+                    }
+                }
                 let pre = if variant % 2 == 1 { "GET /first HTTP/1.1\r\n\r\n" } else { "" };
                 let head = format!("{}PUT /x HTTP/1.1\r\nX-A: b\r\nContent-Length: {}\r\nExpect: 100-continue\r\n\r\n", pre, n).into_bytes();
                 // the head only: no body byte is offered
